@@ -596,6 +596,20 @@ func (wb *wireBuilder) pushToken(v ssa.Value) string {
 	if mi, ok := v.(*ssa.MakeInterface); ok {
 		v = mi.X
 	}
+	// a variable captured by a closure (a deferred release, say) lives in a cell: the one value stored there
+	if u, ok := v.(*ssa.UnOp); ok && u.Op == token.MUL {
+		if al, ok := u.X.(*ssa.Alloc); ok {
+			var stored []ssa.Value
+			for _, rf := range *al.Referrers() {
+				if st, ok := rf.(*ssa.Store); ok && st.Addr == ssa.Value(al) {
+					stored = append(stored, st.Val)
+				}
+			}
+			if len(stored) == 1 {
+				v = stored[0]
+			}
+		}
+	}
 	n, _ := NamedOf(v.Type())
 	switch n {
 	case "lengthField":
